@@ -335,6 +335,10 @@ def cmd_run(prop, tier):
         if os.path.exists(st_path):
             try:
                 for a in json.load(open(st_path)):
+                    for k in ("labels", "excluded_known", "inconclusive"):
+                        a[k] = a.get(k) or {}
+                    a["samples"] = a.get("samples") or []
+                    a["nt_hashes"] = a.get("nt_hashes") or []
                     m = merged.setdefault(a["test"], {"evaluations": 0, "nontrivial_evaluations": 0, "nt": set(),
                                                       "labels": {}, "samples": [], "excluded_known": {},
                                                       "inconclusive": {}, "violations": 0, "exhaustive": True,
@@ -342,10 +346,6 @@ def cmd_run(prop, tier):
                     m["evaluations"] += a["evaluations"]
                     m["nontrivial_evaluations"] += a["nontrivial_evaluations"]
                     m["nt"].update(a["nt_hashes"])
-                    for k in ("labels", "excluded_known", "inconclusive"):
-                        a[k] = a.get(k) or {}
-                    a["samples"] = a.get("samples") or []
-                    a["nt_hashes"] = a.get("nt_hashes") or []
                     for k, v in a["labels"].items():
                         m["labels"][k] = m["labels"].get(k, 0) + v
                     for k, v in a["excluded_known"].items():
